@@ -27,8 +27,8 @@ type addrConn struct {
 }
 type strAddr string
 
-func (a strAddr) Network() string      { return "tcp" }
-func (a strAddr) String() string       { return string(a) }
+func (a strAddr) Network() string       { return "tcp" }
+func (a strAddr) String() string        { return string(a) }
 func (c addrConn) RemoteAddr() net.Addr { return strAddr(c.remote) }
 
 func cidr(s string) *net.IPNet { _, n, _ := net.ParseCIDR(s); return n }
@@ -59,7 +59,7 @@ func runStockPlugins(o *common.Out, next func() string) {
 		{"[2001:db9::5]:80", true, nil, false, []string{"2001:db8::/32"}, []bool{false}},
 		{"127.0.0.1:50000", true, nil, false, nil, nil},
 		{"127.0.0.1:50000", true, []string{"127.0.0.1"}, true, []string{"127.0.0.0/8"}, []bool{true}},
-		{"pipe", false, []string{"pipe"}, false, nil, nil},          // not host:port
+		{"pipe", false, []string{"pipe"}, false, nil, nil},            // not host:port
 		{"", false, nil, false, []string{"0.0.0.0/0"}, []bool{false}}, // not host:port
 		{"0.0.0.0:1", true, nil, false, []string{"0.0.0.0/0"}, []bool{true}},
 		{"255.255.255.255:1", true, nil, false, []string{"0.0.0.0/0", "255.255.255.255/32"}, []bool{true, true}},
@@ -147,37 +147,55 @@ func runStockPlugins(o *common.Out, next func() string) {
 		{"blacklist-other", &serverplugin.BlacklistPlugin{Blacklist: map[string]bool{"10.9.9.9": true}}, true},
 		{"ratelimit-0", serverplugin.NewReqRateLimitingPlugin(time.Hour, 1, false), false}, // its only token is taken by a warm-up request
 	} {
-		rg, err := newTCPRigWith(e.plugin)
-		if err != nil {
-			continue
-		}
-		if e.name == "ratelimit-0" {
-			rg.do(ingReq{ing: "native", path: "Arith", method: "Mul", id: 1, a: 1, b: 1, mode: "ok", seq: 1})
-			rg.drain()
-		}
-		for _, ing := range []string{"native", "gateway", "jsonrpc"} {
-			id := next()
-			q := ingReq{ing: ing, token: "good", path: "Arith", method: "Mul", id: 7, a: 2, b: 3, mode: "ok", seq: 9}
-			abstract := "stocke2e|" + e.name + "|" + ing
-			o.Begin(id, abstract)
-			before := rg.invokedCount()
-			res := rg.do(q)
-			time.Sleep(5 * time.Millisecond)
-			inv := rg.invokedCount() - before
-			rg.drain()
-			if !e.admit && inv > 0 {
-				o.Fail(id, "handler-reached", fmt.Sprintf("%s: a request the plugin refuses ran %d handler(s) through %s", e.name, inv, ing), abstract)
+		for _, late := range []bool{false, true} {
+			if late && e.admit {
+				continue
 			}
-			if !e.admit && res.kind == "result" {
-				o.Fail(id, "result-for-rejected", fmt.Sprintf("%s: a request the plugin refuses got a result through %s", e.name, ing), abstract)
+			var rg *tcpRig
+			var err error
+			if late {
+				// the plugin is installed while the server is already serving (an operator blocks an address at run time)
+				rg, err = newTCPRigWith(nil)
+				if err == nil {
+					rg.srv.Plugins.Add(e.plugin)
+				}
+			} else {
+				rg, err = newTCPRigWith(e.plugin)
 			}
-			if e.admit && (inv != 1 || res.kind != "result") {
-				o.Fail(id, "admitted-not-served", fmt.Sprintf("%s: a request from an admitted address was not served through %s (handlers=%d, outcome=%s)", e.name, ing, inv, res.kind), abstract)
+			if err != nil {
+				continue
 			}
-			o.ImplOnly(id, abstract, true)
-			o.Count("stock-e2e=" + e.name)
+			if e.name == "ratelimit-0" {
+				rg.do(ingReq{ing: "native", path: "Arith", method: "Mul", id: 1, a: 1, b: 1, mode: "ok", seq: 1})
+				rg.drain()
+			}
+			for _, ing := range []string{"native", "gateway", "jsonrpc"} {
+				id := next()
+				q := ingReq{ing: ing, token: "good", path: "Arith", method: "Mul", id: 7, a: 2, b: 3, mode: "ok", seq: 9}
+				abstract := "stocke2e|" + e.name + "|" + ing
+				if late {
+					abstract += "|installed-while-serving"
+				}
+				o.Begin(id, abstract)
+				before := rg.invokedCount()
+				res := rg.do(q)
+				time.Sleep(5 * time.Millisecond)
+				inv := rg.invokedCount() - before
+				rg.drain()
+				if !e.admit && inv > 0 {
+					o.Fail(id, "handler-reached", fmt.Sprintf("%s: a request the plugin refuses ran %d handler(s) through %s", e.name, inv, ing), abstract)
+				}
+				if !e.admit && res.kind == "result" {
+					o.Fail(id, "result-for-rejected", fmt.Sprintf("%s: a request the plugin refuses got a result through %s", e.name, ing), abstract)
+				}
+				if e.admit && (inv != 1 || res.kind != "result") {
+					o.Fail(id, "admitted-not-served", fmt.Sprintf("%s: a request from an admitted address was not served through %s (handlers=%d, outcome=%s)", e.name, ing, inv, res.kind), abstract)
+				}
+				o.ImplOnly(id, abstract, true)
+				o.Count("stock-e2e=" + e.name)
+			}
+			rg.stop()
 		}
-		rg.stop()
 	}
 }
 
@@ -187,7 +205,9 @@ func newTCPRigWith(plugin interface{}) (*tcpRig, error) {
 	s := server.NewServer()
 	rg.srv = s
 	s.RegisterName("Arith", &Arith{h: rg.h}, "")
-	s.Plugins.Add(plugin)
+	if plugin != nil {
+		s.Plugins.Add(plugin)
+	}
 	ln, err := net.Listen("tcp", "127.0.0.1:0")
 	if err != nil {
 		return nil, err
